@@ -192,6 +192,15 @@ def check_rows(rep: Report, rule: str, rows: List[Row], parts: Optional[List[str
         if exp == "skip":
             continue
         case = row_case(r)
+        if "handled_by_key" in r.val and r.event == "UNDOC":
+            if parts is None or "entries" in parts:
+                n += 1
+                rep.bad(rule, WHERE, f"{r.event} {r.kind}: {r.val['handled_by_key']}",
+                        "whether a command was already handled through its doccomment is decided by a key derived from the context "
+                        "(position, text) instead of the context itself: another command sharing that key (same line, same text) is "
+                        "silently skipped", witness="#[[[\n# doc\n#]]\noption(A \"a\") option(B \"b\")   (two commands on one line)",
+                        key=f"{rule}|handled-by-key|{r.kind}")
+            continue
         if r.crash:
             n += 1
             rep.bad(rule, WHERE, case, f"{r.event} {r.kind} crashes: {'; '.join(r.crash)}", witness=f"{r.kind}(a b)",
@@ -348,6 +357,16 @@ def rule_flag_independence(rep: Report, repo: Repo, r1: str, r2: str) -> None:
                                f"the closing command pops somebody else's element")
             rep.check(not bad, r2, WHERE, row_case(r), "; ".join(bad),
                       witness=f"include_undocumented_{k}: false with an undocumented {k}() inside a documented block")
+        # claiming the implementation of a pending declaration does not depend on any flag
+        if k in ("function", "macro"):
+            for r in rows:
+                if r.val.get("awaiting"):
+                    flags_c = [a for a in r.val if a.startswith("inc:")]
+                    rep.check(not flags_c and "is_macro" in r.claim, r2, WHERE, row_case(r)[:110] + " [claim]",
+                              f"the definition that implements a pending member/test declaration is handled differently depending on "
+                              f"{flags_c}: with the flag off the documented member loses its parameter names / macro note "
+                              f"(does `{r.summary()}`)",
+                              witness=f"documented cpp_member + function(...) implementation with include_undocumented_{k}: false")
         # other flags must not matter
         for r in rows:
             others = [a for a in r.val if a.startswith("inc:") and a != "inc:" + k]
